@@ -22,7 +22,8 @@ from collections import OrderedDict
 from mc.engine import Check, Res
 from mc import verify_alphabet as A
 from mc.models import verify_spec as M
-from mc.checks.c02 import (spec_entry, model_value, build_field_dict,
+from mc.checks.c02 import (frame_state, state_changes,
+                           spec_entry, model_value, build_field_dict,
                            fam_class, bound_class, may_raise,
                            repair_may_fire, pick_values)
 
@@ -174,17 +175,32 @@ class C06(Check):
         if layer == 'one':
             for col in A.columns(tier, 'c06'):
                 for kind in A.KINDS:
+                    if tier == 'quick' and 'cats' in col and kind in (
+                            'sign', 'max_nulls'):
+                        continue      # nothing categorical about them
                     yield {'L': 'one', 'col': col, 'kind': kind}
         elif layer == 'options':
             for fr in OPTION_FRAMES:
                 for sink in (None, 'csv', 'parquet'):
                     for stale in ((False, True) if sink else (False,)):
                         three = len(fr['cols'][0]['vals']) == 3
-                        for ix in (None, [10, 20, 30]):
-                            if ix and not three:
+                        for ix in INDEX_VARIANTS:
+                            lab = isinstance(ix, list) or (
+                                isinstance(ix, dict) and ix.get('labels'))
+                            if lab and not three:
                                 continue
-                            if tier == 'quick' and sink and three and not ix:
-                                continue     # files: labelled index only
+                            if tier == 'quick' and sink:
+                                # files: one unnamed labelled and one named
+                                # labelled index (unlabelled ones when the
+                                # frame has no three rows)
+                                if three and ix not in (INDEX_VARIANTS[1],
+                                                        INDEX_VARIANTS[2]):
+                                    continue
+                                if three and ix is INDEX_VARIANTS[2] and (
+                                        stale or sink != 'csv'):
+                                    continue
+                                if not three and ix is not None:
+                                    continue
                             for half in (0, 1, 2, 3):
                                 yield {'L': 'options', 'frame': fr,
                                        'sink': sink, 'stale': stale,
@@ -192,7 +208,8 @@ class C06(Check):
         elif layer == 'two':
             for col in A.columns(tier, 'c06'):
                 n = len(col['vals'])
-                if col['fam'] == 'manycat':
+                if col['fam'] == 'manycat' or (tier == 'quick'
+                                               and 'cats' in col):
                     continue
                 big = col['fam'] in ('i64', 'f64', 'strobj')
                 if tier == 'quick':
@@ -238,6 +255,7 @@ class C06(Check):
     def run_case(self, case):
         R = Res()
         self.clean_sandbox()
+        self.vcache_key = None
         L = case['L']
         before = R.checked
         if L == 'one':
@@ -295,7 +313,9 @@ class C06(Check):
         pycols = dict((n, A.py_column(c)) for c, n in zip(cols, names))
         fams = dict((n, c['fam']) for c, n in zip(cols, names))
         df = A.build_frame(cols, names, index)
+        df.attrs['origin'] = {'k': [1, 2]}
         pre = df.copy(deep=True)
+        self.state0 = frame_state(df)
         labels = list(df.index)
         nrows = len(df)
         cdict = OrderedDict()
@@ -326,8 +346,15 @@ class C06(Check):
                 fh.write('Index,n_failures\n99,7\n')
 
         # ---- plain verification on a copy (differential reference)
-        vs, vv = self.call(self.verify_df, pre.copy(deep=True), full, eps, tc,
-                           repair, {})
+        vkey = json.dumps([detail['frame'], index, detail['constraints'], eps,
+                           tc, repair], sort_keys=True, default=str)
+        cached = getattr(self, 'vcache_key', None) == vkey
+        if cached:
+            vs, vv = self.vcache       # same frame and constraints, this case
+        else:
+            vs, vv = self.call(self.verify_df, pre.copy(deep=True), full, eps,
+                               tc, repair, {})
+            self.vcache_key, self.vcache = vkey, (vs, vv)
         # ---- detection
         extra = {'per_constraint': opts['per_constraint'],
                  'write_all': opts['write_all'], 'index': opts['index'],
@@ -343,7 +370,7 @@ class C06(Check):
         if sink:
             extra['outpath'] = path
         ds, dv = self.call(self.detect_df, df, full, eps, tc, repair, extra)
-        R.ev(2)
+        R.ev(1 if cached else 2)
         if ds == 'exc' or vs == 'exc':
             R.out('raise:%s/%s' % (type(dv).__name__ if ds == 'exc' else 'ok',
                                    type(vv).__name__ if vs == 'exc' else 'ok'))
@@ -386,6 +413,7 @@ class C06(Check):
         # ---- model: verdicts and per-record flags of failing constraints
         epsm = eps
         failing = []         # (field, kind, entry, flags or None)
+        self.definite_fail = set()   # failing, and the model says so too
         model_ok = True      # model verdicts compatible with the observed
         for f, entries in fields.items():
             judged = list(entries)
@@ -408,6 +436,8 @@ class C06(Check):
                              precision=e.get('prec'), present=present)
                 if want != UNSPEC and want is not o:
                     model_ok = False        # C02's business, not judged here
+                if o is False and want is False and present:
+                    self.definite_fail.add((f, kind))
                 if o is False:
                     if not present:
                         failing.append((f, kind, e, None))
@@ -543,27 +573,27 @@ class C06(Check):
             return None
 
     def check_input(self, R, df, pre, opts, ref_nf, detail, sub, famsig):
-        """input frame unchanged unless in_place; with in_place the original
-        columns still are, and the added failure count equals the model."""
+        """The complete caller-visible state of the input frame (values, null
+        flavours, dtypes, column labels / order / column-index name, row index
+        values / names / type, attrs, categories and orderedness) is as before
+        the call unless in_place; with in_place only columns are appended, and
+        the added failure count equals the model."""
         R.checked += 1
         orig = list(pre.columns)
-        if not opts['in_place']:
-            same = (list(df.columns) == orig and df.equals(pre)
-                    and list(df.dtypes) == list(pre.dtypes)
-                    and df.index.equals(pre.index))
-            if not same:
-                R.viol('input-changed:%s' % famsig,
-                       'input-unchanged-unless-in-place',
-                       dict(detail, columns_after=[str(c) for c in df.columns],
-                            dtypes_after=[str(t) for t in df.dtypes]), sub)
-            return
-        if list(df.columns)[:len(orig)] != orig or \
-                not df[orig].equals(pre) or \
-                list(df[orig].dtypes) != list(pre.dtypes):
-            R.viol('in-place-changed-original-columns:%s' % famsig,
+        changed = state_changes(self.state0, frame_state(df),
+                                in_place=opts['in_place'])
+        if changed:
+            R.viol('input-changed:%s%s' % ('+'.join(changed),
+                                           ':in-place' if opts['in_place']
+                                           else ''),
                    'input-unchanged-unless-in-place',
-                   dict(detail, columns_after=[str(c) for c in df.columns]),
-                   sub)
+                   dict(detail, changed=changed,
+                        before=dict((k, self.state0[k]) for k in changed
+                                    if k in self.state0),
+                        after=dict((k, v) for k, v in frame_state(df).items()
+                                   if k in changed)), sub)
+        if not opts['in_place']:
+            return
         if ref_nf is not None:
             newc = [c for c in df.columns if c not in orig]
             nfc = [c for c in newc if str(c).startswith(NFAIL)]
@@ -743,6 +773,18 @@ class C06(Check):
                 bad = True
                 continue
             R.checked += 1
+            if where == 'frame' and (f, kind) in self.definite_fail and \
+                    len(fl) > 0 and not any(x is False
+                                            for x in flagvals[cname]):
+                # model-independent: a constraint that failed on records it
+                # can be checked on must put the blame on at least one
+                R.viol('failed-constraint-flags-no-record:%s:%s'
+                       % (kind, fam_class(detail['frame'][f]['fam'])),
+                       'flag-false-exactly-on-violating-records',
+                       dict(d2, field=f, kind=kind,
+                            observed=[str(x) for x in flagvals[cname]]), sub)
+                bad = True
+                continue
             for j, i in enumerate(rows):
                 if not M.flag_agrees(fl[i], flagvals[cname][j]):
                     R.viol(self.flag_sig(where, kind, e, detail, f, fl[i],
@@ -934,6 +976,12 @@ class C06(Check):
             d += 1
         R.states = len(seen)
 
+
+# row / column index shapes: unnamed RangeIndex, unnamed labels, named labels
+# (+ named column index), named RangeIndex
+INDEX_VARIANTS = [None, [10, 20, 30],
+                  {'labels': [10, 20, 30], 'name': 'id', 'colname': 'cols'},
+                  {'labels': None, 'name': 'rownum', 'colname': None}]
 
 _I3 = {'fam': 'i64', 'vals': [1, 0, 3]}
 _F3 = {'fam': 'f64', 'vals': [None, -1.5, 2.5]}
